@@ -21,6 +21,9 @@ def one(d, props, own):
         if rc != 0:
             return f"{d}: patch does not apply: {out[:150]}"
         alarms, und = {}, {}
+        sys.path.insert(0, os.path.join(VERIF, "tools"))
+        import stress
+        stressed = stress.stress_tree(scratch)
         for p in ([meta["property"]] if own else props):
             rc, out = sh(f"./check {p} --tier quick --no-write --repo {scratch}", cwd=VERIF)
             lines = [l[:300].replace(scratch, "<scratch>") for l in out.splitlines() if l.startswith(("REFUTED", "ANALYSIS-ERROR"))][:2]
@@ -28,7 +31,7 @@ def one(d, props, own):
                 alarms[p] = lines
             elif rc == 2:
                 und[p] = lines
-        if not own:
+        if not own and not stressed:
             meta["alarms"], meta["undecided"] = alarms, und
             meta["silent"] = [p for p in props if p not in alarms and p not in und]
             json.dump(meta, open(os.path.join(base, "meta.json"), "w"), indent=1)
